@@ -185,28 +185,38 @@ func UpdatePathAttrs4ByteAs(logger *slog.Logger, msg *bgp.BGPUpdate) {
 
 	keepNum := asLen + asConfedLen - as4Len
 
+	// keepNum counts confederation segments the way asConfedLen does
+	// (ASLen() reports 0 for them), so the loop must consume them the same way.
+	segLen := func(param bgp.AsPathParamInterface) int {
+		switch param.GetType() {
+		case bgp.BGP_ASPATH_ATTR_TYPE_CONFED_SET:
+			return 1
+		case bgp.BGP_ASPATH_ATTR_TYPE_CONFED_SEQ:
+			return len(param.GetAS())
+		}
+		return param.ASLen()
+	}
+
 	newParams := make([]bgp.AsPathParamInterface, 0, len(asAttr.Value))
 	for _, param := range asParams {
-		if keepNum-param.ASLen() >= 0 {
+		if keepNum <= 0 {
+			break
+		}
+		if l := segLen(param); keepNum-l >= 0 {
 			newParams = append(newParams, param)
-			keepNum -= param.ASLen()
+			keepNum -= l
 		} else {
 			// only SEQ param reaches here
 			newParams = append(newParams, bgp.NewAs4PathParam(param.GetType(), param.GetAS()[:keepNum]))
 			keepNum = 0
 		}
-
-		if keepNum <= 0 {
-			break
-		}
 	}
 
 	for _, param := range as4Params {
-		lastParam := newParams[len(newParams)-1]
-		lastParamAS := lastParam.GetAS()
 		paramType := param.GetType()
 		paramAS := param.GetAS()
-		if paramType == lastParam.GetType() && paramType == bgp.BGP_ASPATH_ATTR_TYPE_SEQ {
+		if len(newParams) > 0 && paramType == bgp.BGP_ASPATH_ATTR_TYPE_SEQ && paramType == newParams[len(newParams)-1].GetType() {
+			lastParamAS := newParams[len(newParams)-1].GetAS()
 			if len(lastParamAS)+len(paramAS) > 255 {
 				newParams[len(newParams)-1] = bgp.NewAs4PathParam(paramType, append(lastParamAS, paramAS[:255-len(lastParamAS)]...))
 				newParams = append(newParams, bgp.NewAs4PathParam(paramType, paramAS[255-len(lastParamAS):]))
